@@ -31,7 +31,7 @@ class HarnessError(Exception):
 class SimThread:
     __slots__ = (
         "kernel", "name", "target", "args", "sem", "alive", "started", "real",
-        "blocked", "last_run", "exc", "no_preempt", "kind", "site", "finished_ok",
+        "blocked", "last_run", "exc", "no_preempt", "kind", "site", "finished_ok", "prio",
     )
 
     def __init__(self, kernel, name, target, args=(), kind="worker"):
@@ -49,6 +49,7 @@ class SimThread:
         self.no_preempt = 0
         self.site = ""
         self.finished_ok = False
+        self.prio = 0
         self.real = _real_threading.Thread(target=self._boot, name="sim-" + name, daemon=True)
 
     def _boot(self):
@@ -126,6 +127,15 @@ class Kernel:
         self.slice_max = sched.get("slice", 150)
         if self.sched_kind == "walk":
             self.gap = self.S.gap(self.gap_mean)
+        # PCT: random thread priorities, highest runnable runs; d priority-drop points
+        self.pct_clock = 0
+        self.pct_points = []
+        self.pct_low = 0
+        if self.sched_kind == "pct":
+            n = max(10, int(sched.get("pct_len", 2000)))
+            d = int(sched.get("pct_d", 2))
+            self.pct_points = sorted(self.S.raw(lambda r, n=n: 1 + r.randrange(n)) for _ in range(d))
+            self.pct_points = [x for x in self.pct_points if x > 0]
         # livelock detection
         self.spin_count = 0
         self.spin_progress = -1
@@ -187,6 +197,8 @@ class Kernel:
     # -------------------------------------------------------------- threads
     def spawn(self, name, target, args=(), kind="worker"):
         t = SimThread(self, name, target, args, kind)
+        if self.sched_kind == "pct":
+            t.prio = 1000 + self.S.draw(1000)
         self.threads.append(t)
         t.real.start()
         self.log("spawn", name)
@@ -234,6 +246,8 @@ class Kernel:
                     return cands[0]
         if self.sched_kind == "rtb":
             return cands[0]
+        if self.sched_kind == "pct":
+            return max(cands, key=lambda t: t.prio)
         return cands[self.S.draw(len(cands))]
 
     def _idle_or_advance(self):
@@ -382,6 +396,26 @@ class Kernel:
             if self.gap == 0:
                 switch = True
                 self.gap = self.S.gap(self.gap_mean)
+        if self.pct_points:
+            self.pct_clock += 1
+            if self.pct_clock >= self.pct_points[0]:
+                self.pct_points.pop(0)
+                self.pct_low -= 1
+                me.prio = self.pct_low
+        if self.sched_kind == "pct":
+            best = me
+            for t in self.threads:
+                if t is not me and t.prio > best.prio and self._is_runnable(t):
+                    best = t
+            if best is not me:
+                if self.events and self.events[0][0] <= self.now:
+                    self._run_due_events()
+                me.blocked = None
+                self._handoff(me, best)
+                me.sem.acquire()
+                if self.aborting:
+                    raise SimAbort()
+                return
         self.slice += 1
         if self.slice >= self.slice_max and not switch:
             # time slice used up: a pre-emptive OS would run somebody else now
@@ -406,6 +440,24 @@ class Kernel:
         """pre-emption opportunity at a traced source line (no time cost)."""
         me = self.current
         if me is None or me.no_preempt or self.aborting or self.finished:
+            return
+        if self.pct_points:
+            self.pct_clock += 1
+            if self.pct_clock >= self.pct_points[0]:
+                self.pct_points.pop(0)
+                self.pct_low -= 1
+                me.prio = self.pct_low
+                best = None
+                for t in self.threads:
+                    if t is not me and self._is_runnable(t) and (best is None or t.prio > best.prio):
+                        best = t
+                if best is not None and best.prio > me.prio:
+                    self.steps += 1
+                    me.site = "line"
+                    self._handoff(me, best)
+                    me.sem.acquire()
+                    if self.aborting:
+                        raise SimAbort()
             return
         if self.gap > 0:
             self.gap -= 1
@@ -448,6 +500,11 @@ class Kernel:
         """called by select when it returns immediately; detects livelock."""
         if self.progress == self.spin_progress and signature == getattr(self, "_spin_sig", None):
             self.spin_count += 1
+            if self.sched_kind == "pct" and self.spin_count >= 3 and self.current is not None:
+                # a spinning thread must not starve lower-priority threads (PCT treats a
+                # busy-wait iteration as a yield: the spinner drops to the lowest priority)
+                self.pct_low -= 1
+                self.current.prio = self.pct_low
             if self.spin_count >= self.spin_limit:
                 # only a livelock if nobody else can run and no event is pending
                 others = [t for t in self.threads if t is not self.current and self._is_runnable(t)]
